@@ -249,6 +249,48 @@ def convert_case(case, fail):
         d2 = bpauli.apply_deformation(idx, np.vstack([w8, other]))
         if not (np.array_equal(d2[0], wantd) and np.array_equal(d2[1], do)):
             fail('apply_deformation_2d', s)
+    # sparse-row helpers agree with the dense picture
+    if n:
+        rng2 = np.random.default_rng(case['rseed'] + 2)
+        w8 = want.astype(np.uint8)
+        row = bsparse.from_array(w8.reshape(1, -1))
+        a, b = bsparse.hsplit(row)
+        if not (np.array_equal(bsparse.to_array(a), w8[:n].reshape(1, -1))
+                and np.array_equal(bsparse.to_array(b), w8[n:].reshape(1, -1))):
+            fail('bsparse_hsplit_row', s)
+        M2 = np.vstack([w8, (rng2.random(2 * n) < 0.5).astype(np.uint8)])
+        a2, b2 = bsparse.hsplit(bsparse.from_array(M2))
+        if not (np.array_equal(bsparse.to_array(a2), M2[:, :n])
+                and np.array_equal(bsparse.to_array(b2), M2[:, n:])):
+            fail('bsparse_hsplit_matrix', s)
+        other = (rng2.random(2 * n) < 0.5).astype(np.uint8)
+        want_dot = int(np.sum(w8.astype(int) * other.astype(int)) % 2)
+        for A_, B_ in ((row, bsparse.from_array(other.reshape(1, -1))),
+                       (w8.reshape(1, -1), bsparse.from_array(other.reshape(1, -1))),
+                       (row, other.reshape(1, -1))):
+            if bsparse.dot(A_, B_) != want_dot:
+                fail('bsparse_dot', s)
+                break
+        r2 = bsparse.from_array(w8.reshape(1, -1))
+        idx = int(rng2.integers(0, 2 * n))
+        bsparse.insert_mod2(idx, r2)
+        flipped = w8.copy()
+        flipped[idx] ^= 1
+        if not np.array_equal(bsparse.to_array(r2).ravel(), flipped):
+            fail('bsparse_insert_mod2', f'{s} index {idx}')
+        if bool(bsparse.is_one(idx, r2)) != bool(flipped[idx]):
+            fail('bsparse_is_one', f'{s} index {idx}')
+        if not bsparse.equal(bsparse.from_array(w8.reshape(1, -1)), row) or \
+                bsparse.equal(r2, row):
+            fail('bsparse_equal', s)
+        if not bsparse.equal(bsparse.zero_row(2 * n), 0) or bsparse.zero_matrix((3, 2 * n)).nnz:
+            fail('bsparse_zero', s)
+        st_ = bsparse.vstack([row, r2])
+        if not np.array_equal(bsparse.to_array(st_), np.vstack([w8, flipped])):
+            fail('bsparse_vstack', s)
+        hs = bsparse.hstack([row, r2])
+        if not np.array_equal(bsparse.to_array(hs).ravel(), np.concatenate([w8, flipped])):
+            fail('bsparse_hstack', s)
     # rank
     rng = np.random.default_rng(case['rseed'] + 1)
     r, c = case['rank_shape']
